@@ -165,6 +165,7 @@ def run(ctx: Ctx):
     feature_axis(ctx)
     deterministic_inference(ctx)
     stateless_forward(ctx)
+    submodules_registered(ctx)
     # replicated rows must keep their instance (shared with C12.a): a layout mismatch between the replicated state and the
     # replicated embeddings makes an instance's result depend on its batch-mates
     from . import C12
@@ -365,6 +366,54 @@ def _elementwise_reach(root, node, depth=0) -> bool:
 STATE_EXCEPTIONS = {
     ("MultiStageFFSPDecoder", "cached_embs"): "written by _precompute_cache, which the policy calls at the start of every rollout with the embeddings of THAT batch; read only during that rollout",
 }
+
+
+def submodules_registered(ctx: Ctx):
+    """C14.g (registration) a layer kept in a plain Python list / dict attribute is not a sub-module: eval(), train(), to() and
+    state_dict() never reach it.  For layers whose behaviour depends on the mode (Dropout, BatchNorm) inference then runs them
+    in training mode.  Every container of nn layers that a constructor of the policy modules leaves bound to an attribute is an
+    nn.ModuleList / ModuleDict / Sequential (the LAST binding of the attribute decides: a list wrapped right after is fine)."""
+    import ast as _ast
+
+    def makes_layer(node):
+        for x in _ast.walk(node):
+            if isinstance(x, _ast.Call):
+                f = _ast.unparse(x.func)
+                if f.startswith("nn.") and f[3:4].isupper() and f not in ("nn.ModuleList", "nn.ModuleDict", "nn.Sequential", "nn.Parameter", "nn.ParameterList"):
+                    return True
+        return False
+
+    n_cls, n_c = 0, 0
+    for name, mi in sorted(ctx.repo.modules.items()):
+        if not in_scope(name):
+            continue
+        for cn, c in sorted(mi.classes.items()):
+            ini = c.methods.get("__init__")
+            if ini is None:
+                continue
+            n_cls += 1
+            last = {}
+            for st in sorted([x for x in _ast.walk(ini.node) if isinstance(x, _ast.Assign)], key=lambda x: x.lineno):
+                if len(st.targets) == 1 and isinstance(st.targets[0], _ast.Attribute) and isinstance(st.targets[0].value, _ast.Name) and st.targets[0].value.id == "self":
+                    last[st.targets[0].attr] = st
+            for attr, st0 in sorted(last.items()):
+                if not isinstance(st0.value, (_ast.List, _ast.Dict, _ast.ListComp)):
+                    continue
+                holds = makes_layer(st0.value)
+                for c2 in _ast.walk(ini.node):
+                    if isinstance(c2, _ast.Call) and isinstance(c2.func, _ast.Attribute) and c2.func.attr in ("append", "extend", "insert") and isinstance(c2.func.value, _ast.Attribute) \
+                            and isinstance(c2.func.value.value, _ast.Name) and c2.func.value.value.id == "self" and c2.func.value.attr == attr and c2.lineno > st0.lineno:
+                        if any(makes_layer(a_) for a_ in c2.args):
+                            holds = True
+                if holds:
+                    n_c += 1
+                    ctx.repo.note(mi)
+                    ctx.ob("C14.g", f"{cn}.__init__:self.{attr}:layers-registered", False, f"{mi.relpath}:{st0.lineno}",
+                           f"self.{attr} is left as a plain Python container holding nn layers: they are not sub-modules, eval() does not reach them (a Dropout in it stays active in inference)",
+                           construct=f"{cn}.__init__:unregistered-layers:{attr}")
+    ctx.extra["plain_layer_containers"] = n_c
+    if n_cls < 40:
+        raise AnalysisError(f"only {n_cls} constructors scanned for unregistered layers")
 
 
 def stateless_forward(ctx: Ctx):
